@@ -210,7 +210,9 @@ def run(out, info, tier, seed):
             start_order = sorted([f'S{k}' for k in range(n)], key=lambda s: (len(grp[int(s[1:])]) > 0, grp[int(s[1:])], int(s[1:])))
             mv, idx = model_verdict(case, model, start_order)
             if mv.split()[0] != iv:
-                if not (not conv and 'incomparable' in (mv, iv)):
+                # (non-convex scenarios: mixed-cutoff delays are incomparable, F9, and the closure - also the modelled one,
+                #  which then runs out of fuel - may replace two such delays by each other for ever, F9h)
+                if not (not conv and ('incomparable' in (mv, iv) or mv.split()[0] == 'fuel' or iv == 'hang')):
                     mism.append(dict(desc, model=mv, implementation=iv))
             elif iv == 'accepted' and len({tuple(g) for g in grp}) == 1:
                 # all simulators in one group (or none): the premises of the completeness theorem must hold
